@@ -6,8 +6,8 @@ from concurrent.futures import ThreadPoolExecutor
 from vlib import NCPU, Inconclusive, write_evidence, known_match, save_replay, write_ndjson, read_ndjson
 
 CLASSES = ["absent", "valid_s1", "valid_s2", "wrongsig", "alg_none", "alg_rs256", "expired", "future_near", "future_far",
-           "garbage", "payload_tampered", "header_tampered"]
-CORE = ["absent", "valid_s1", "valid_s2", "wrongsig", "expired", "future_near", "alg_none"]
+           "garbage", "payload_tampered", "header_tampered", "empty_key"]
+CORE = ["absent", "valid_s1", "valid_s2", "wrongsig", "expired", "empty_key", "future_near", "alg_none"]
 
 
 def cfg_classes(cs):
